@@ -229,7 +229,7 @@ class Gen:
                         ch = rng.choice(C["chans"])
                         ch[rng.choice(("lens", "type", "name"))] = gen.text(rng, 33, "max")
                     if C["t"] in gen.SEGMENTED and rng.random() < 0.25:
-                        s["run_order"] = "reversed"  # another writer's order of the runs
+                        s["run_order"] = rng.choice(("reversed", "reversed", "split", "split_reversed"))  # another writer's run table
                     code = gen.code_of(C)
                 if code in used:
                     continue
@@ -250,6 +250,9 @@ class Gen:
                 extra["version"] = rng.choice((0, 2, 2, 3, 7, 2**31, 2**32 - 1))  # nobody checks the version; nobody may change it
             if rng.random() < 0.15:
                 extra["unused_fmt"] = rng.randint(1, 7)
+            if rng.random() < 0.12:
+                # nothing says what the offset of an unused slot is; other software leaves anything there
+                extra["unused_off"] = rng.choice(("zero", "neg", "inside", "beyond", "table"))
             if rng.random() < 0.3:
                 extra["hdr"] = [rng.choice((rng.randint(0, 2**31 - 1), -rng.randint(1, 2**31 - 1), rng.randint(10**9, 17 * 10**8)))
                                 for _ in range(3)]
@@ -357,7 +360,7 @@ class Gen:
             bases = [self.block(exclude=set(self.present[f]), min_items=2)]
             if pres and rng.random() < 0.5:
                 bases.append(self.block(only=pres, min_items=2))
-            causes = rng.sample(["label_long", "label_enc", "comment_long", "comment_enc", "format", "wrong_obj",
+            causes = rng.sample(["label_long", "label_enc", "label_nul", "comment_long", "comment_enc", "comment_nul", "format", "wrong_obj",
                                  "dup", "full", "replace_absent", "remove_absent"], 3)
             self.emit(op="reject_all", f=f, bases=bases, only=causes)
         elif k == "decode_twice":
